@@ -113,17 +113,20 @@ def sort_of(t):
     elif isinstance(t, TNone):
         s = z3.BoolSort()  # placeholder (value irrelevant)
     elif isinstance(t, TList):
-        d = z3.Datatype('L_' + _mangle(t.elem.key()))
-        d.declare('mk', ('len', z3.IntSort()), ('arr', z3.ArraySort(z3.IntSort(), sort_of(t.elem))))
+        nm = 'L_' + _mangle(t.elem.key())
+        d = z3.Datatype(nm)
+        d.declare('mk_' + nm, ('len_' + nm, z3.IntSort()), ('arr_' + nm, z3.ArraySort(z3.IntSort(), sort_of(t.elem))))
         s = d.create()
     elif isinstance(t, TOpt):
-        d = z3.Datatype('O_' + _mangle(t.elem.key()))
-        d.declare('none')
-        d.declare('some', ('val', sort_of(t.elem)))
+        nm = 'O_' + _mangle(t.elem.key())
+        d = z3.Datatype(nm)
+        d.declare('none_' + nm)
+        d.declare('some_' + nm, ('val_' + nm, sort_of(t.elem)))
         s = d.create()
     elif isinstance(t, TTuple):
-        d = z3.Datatype('T_' + _mangle(k))
-        d.declare('mk', *[('f%d' % i, sort_of(e)) for i, e in enumerate(t.elems)])
+        nm = 'T_' + _mangle(k)
+        d = z3.Datatype(nm)
+        d.declare('mk_' + nm, *[('f%d_%s' % (i, nm), sort_of(e)) for i, e in enumerate(t.elems)])
         s = d.create()
     else:
         raise TypeError('no sort for %r' % (t,))
@@ -187,53 +190,53 @@ def mk_obj(kind, py):
 # ---- list helpers -------------------------------------------------------------------------
 
 def list_len(v):
-    return sort_of(v.t).len(v.e)
+    return sort_of(v.t).accessor(0, 0)(v.e)
 
 
 def list_arr(v):
-    return sort_of(v.t).arr(v.e)
+    return sort_of(v.t).accessor(0, 1)(v.e)
 
 
 def mk_list(t, length, arr):
-    return Val(t, sort_of(t).mk(length, arr))
+    return Val(t, sort_of(t).constructor(0)(length, arr))
 
 
 def empty_list(t):
     s = sort_of(t)
     arr = z3.Const(fresh_name('emptyarr'), z3.ArraySort(z3.IntSort(), sort_of(t.elem)))
-    return Val(t, s.mk(z3.IntVal(0), arr))
+    return Val(t, s.constructor(0)(z3.IntVal(0), arr))
 
 
 def list_from(t, elems):
     arr = z3.Const(fresh_name('litarr'), z3.ArraySort(z3.IntSort(), sort_of(t.elem)))
     for i, x in enumerate(elems):
         arr = z3.Store(arr, i, x.e)
-    return Val(t, sort_of(t).mk(z3.IntVal(len(elems)), arr))
+    return Val(t, sort_of(t).constructor(0)(z3.IntVal(len(elems)), arr))
 
 
 # ---- option helpers -----------------------------------------------------------------------
 
 def opt_none(t):
-    return Val(t, sort_of(t).none)
+    return Val(t, sort_of(t).constructor(0)())
 
 
 def opt_some(t, v):
-    return Val(t, sort_of(t).some(v.e))
+    return Val(t, sort_of(t).constructor(1)(v.e))
 
 
 def opt_is_none(v):
-    return sort_of(v.t).is_none(v.e)
+    return sort_of(v.t).recognizer(0)(v.e)
 
 
 def opt_val(v):
-    return Val(v.t.elem, sort_of(v.t).val(v.e))
+    return Val(v.t.elem, sort_of(v.t).accessor(1, 0)(v.e))
 
 
 # ---- tuple helpers ------------------------------------------------------------------------
 
 def mk_tuple(vals):
     t = TTuple([v.t for v in vals])
-    return Val(t, sort_of(t).mk(*[v.e for v in vals]))
+    return Val(t, sort_of(t).constructor(0)(*[(v.e if v.e is not None else z3.BoolVal(False)) for v in vals]))
 
 
 def tuple_get(v, i):
